@@ -53,7 +53,14 @@ InScope(scope) ==
        LET c == HeadCommit
            x == Excluded(scope) IN
           PtrOids(Anc(c, commits) \ Anc(x, commits), commits) \ PtrOids(Anc(x, commits), commits)
+\* For a range Git lists the objects of the range's commits that the excluded side does not have; how
+\* much of the excluded side's history it looks at is Git's business (only the boundary commit's tree
+\* is certain).  So objects of the range's commits that also occur further back in the excluded history
+\* MAY be in scope: damage to them may or may not be reported (and repaired).
+MayScope(scope) == IF scope = "head" THEN InScope(scope)
+                   ELSE PtrOids(Anc(HeadCommit, commits) \ Anc(Excluded(scope), commits), commits) \ PtrOids({Excluded(scope)}, commits)
 BadObjects(scope)  == {o \in InScope(scope) : local[o] # "valid"}
+MayBadObjects(scope) == {o \in MayScope(scope) : local[o] # "valid"} \ BadObjects(scope)
 BadPointers == {p \in Paths : TreeOf(HeadCommit)[p] = "raw" \/ TreeOf(HeadCommit)[p] \in NonCanon}
 
 Fsck(flag, scope) ==
@@ -63,13 +70,15 @@ Fsck(flag, scope) ==
          chkPtr == flag \in {"none", "pointers", "dry-run"}
          bo == IF chkObj THEN BadObjects(scope) ELSE {}
          bp == IF chkPtr THEN BadPointers ELSE {}
+         mb == IF chkObj THEN MayBadObjects(scope) ELSE {}
          moved == IF flag = "dry-run" THEN {} ELSE {o \in bo : local[o] = "corrupt"}
+         mayMove == IF flag = "dry-run" THEN {} ELSE {o \in mb : local[o] = "corrupt"}
      IN /\ local' = [o \in Oids |-> IF o \in moved THEN "absent" ELSE local[o]]
         /\ bad' = bad \cup moved
         /\ fdone' = TRUE
         /\ Log([a |-> "fsck", flag |-> flag, scope |-> scope, ok |-> (bo = {} /\ bp = {}),
                 badObjects |-> bo, missing |-> {o \in bo : local[o] = "absent"}, corrupt |-> {o \in bo : local[o] = "corrupt"},
-                badPointers |-> bp, moved |-> moved, intact |-> LocalValid])
+                badPointers |-> bp, moved |-> moved, intact |-> LocalValid, mayReport |-> mb, mayMove |-> mayMove])
   /\ UNCHANGED <<commits, br, rr, rt, head, server, everRemote, fstaged>>
 
 FNext == \/ \E b \in Branches, p \in Paths, blob \in Blobs, g \in Ages : FCommit(b, p, blob, g)
